@@ -49,6 +49,8 @@ impl SimulationBoundary {
     pub fn iloc(&self, loc: DVec3) -> [i64; 3] {
         // Rescale the coordinates to fall within [1, 2):
         let loc = DVec3::splat(1.) + (loc - self.anchor) * self.inverse_width;
+        #[cfg(feature = "verif")]
+        super::verif_hooks::on_iloc(loc);
         debug_assert!(loc.x >= 1. && loc.x < 2.);
         debug_assert!(loc.y >= 1. && loc.y < 2.);
         debug_assert!(loc.z >= 1. && loc.z < 2.);
